@@ -120,7 +120,7 @@ def format_rule_v6(rng):
 
 PTON_AIMED = ["", ":", "::", ":::", "::::", "1", "1:", ":1", "::1", "1::", "1::2::3", "::1::", "1::2:3::", "12345::", "::12345", "1:12345::", "::00001", "::0000", "0000::",
               "1:2:3:4:5:6:7:8:9", "1:2:3:4:5:6:7:8", "1:2:3:4:5:6:7", "1:2:3:4:5:6:7:", ":1:2:3:4:5:6:7", "1:2:3:4:5:6:7::", "::1:2:3:4:5:6:7", "1:2:3:4:5:6:7:8::", "::1:2:3:4:5:6:7:8",
-              "1:2:3:4::5:6:7:8", "1:2:3::5:6:7:8", "1::8:", ":1::8", "ABCD::EF01", "AbCd::eF01", "abcd::ef01", "g::", "::g", "::-1", "::+1", "::0x1", ":: 1", "::1 ", " ::1", "::1\n", "::1\t",
+              "1:2:3:4::5:6:7:8", "1:2:3::5:6:7:8", "1::8:", ":1::8", "ABCD::EF01", "AbCd::eF01", "abcd::ef01", "g::", "::g", "::G", "G::", "::@", "::`", "::/", "::1g", "::fG", "1:G::", "::ffff:1.2.3.G", "::1.2.3.4G", "::9:", "::a:", "::f:", "::F", "::A", "::a", "::f", "::-1", "::+1", "::0x1", ":: 1", "::1 ", " ::1", "::1\n", "::1\t",
               "1:2:3:4:1.2.3.4:5", "1.2.3.4::", "1.2.3.4:1::", "::1.2.3.4", "::1.2.3.4:5", "::1.2.3.4::", "1::1.2.3.4", "1:2:3:4:5:6:1.2.3.4", "1:2:3:4:5:6:7:1.2.3.4", "1:2:3:4:5:1.2.3.4",
               "1:2:3:4:5::1.2.3.4", "1:2:3:4:5:6::1.2.3.4", "::ffff:1.2.3.4", "::FFFF:1.2.3.4", "::ffff:01.2.3.4", "::ffff:1.02.3.4", "::ffff:1.2.3.04", "::ffff:1.2.3.256", "::ffff:256.2.3.4",
               "::ffff:1.2.3", "::ffff:1.2.3.4.5", "::ffff:1.2.3.", "::ffff:.1.2.3", "::ffff:1..2.3", "::ffff:1.2.3.4.", "::a.2.3.4", "::1.a.3.4", "::12345.2.3.4", "::1234.2.3.4", "::0.0.0.0",
@@ -366,7 +366,7 @@ def run(chk):
     # ---- inet_pton / getaddrinfo against the Lean model: aimed malformed strings, every text form, mutations of real texts
     for t in PTON_AIMED:
         add("pton " + hx(t.encode("latin-1")), "platform-model:pton")
-    alphabet6 = b"0123456789abcdefABCDEF.:::..%xg -/\x00\xff"
+    alphabet6 = b"0123456789abcdefABCDEF.:::..%xg -/@G`\x00\xff"
     for _ in range(20000 if thorough else 4000):
         a = rng.choice(fr) if rng.random() < 0.7 else bytes(rng.randrange(256) for _ in range(16))
         t = rng.choice(text_forms(rng, a)).encode()
